@@ -150,9 +150,11 @@ NF_strip ==
 IsOpTok(i) == Toks[i].k = "op"
 \* with strip_whitespace also requested the blank after `(` / before `)` is removed again: a unary sign
 \* directly inside a parenthesis is exempt on that side
+\* (StripWhitespaceFilter is in the stack for strip_whitespace AND for every reindent option: validate_options sets it)
+StripsWs == \E n \in {"strip_whitespace", "reindent", "reindent_aligned", "indent_columns"} : IsTrue(n)
 NF_ops == \A i \in 1..NT : IsOpTok(i) =>
-             /\ (i > 1 /\ (IsWs(i - 1) \/ (IsTrue("strip_whitespace") /\ IsPunct(i - 1, 40))))
-             /\ (i < NT /\ (IsWs(i + 1) \/ (IsTrue("strip_whitespace") /\ IsPunct(i + 1, 41))))
+             /\ (i > 1 /\ (IsWs(i - 1) \/ (StripsWs /\ IsPunct(i - 1, 40))))
+             /\ (i < NT /\ (IsWs(i + 1) \/ (StripsWs /\ IsPunct(i + 1, 41))))
 
 \* reindent: clause keywords start their own line; no line ends in a blank
 UpperVal(i) == [j \in 1..Len(Toks[i].val) |-> UpperC(Toks[i].val[j])]
